@@ -475,3 +475,129 @@ pub fn worker_mem_big(a: &WorkerArgs) -> Accum {
     }
     acc
 }
+
+// ------------------------------------------------------------------ C18
+
+pub fn probe_replay_text(prop: &str, r: &crate::probes::ProbeResult, seed: u64, nestings: usize) -> String {
+    let mut s = format!("# replay for property {}\n# {}\nprobe id={} seed={} nestings={}\n# program:\n", prop, r.why, r.probe.id, seed, nestings);
+    for l in r.probe.source.lines() {
+        s.push_str(&format!("#   {}\n", l));
+    }
+    for (c, t) in r.errors.iter().take(3) {
+        s.push_str(&format!("# rustc: {} {}\n", c, t.lines().next().unwrap_or("")));
+    }
+    s
+}
+
+pub fn worker_probes(a: &WorkerArgs, root: &Path) -> Accum {
+    let mut acc = Accum::default();
+    let nestings = if a.thorough { 16 } else { 4 };
+    let run = match crate::probes::run_all(root, Path::new("/repo"), a.seed, nestings) {
+        Ok(r) => r,
+        Err(e) => {
+            acc.notes.push(format!("INCONCLUSIVE: {}", e));
+            return acc;
+        }
+    };
+    for (k, v) in crate::probes::histogram(&run.results) {
+        acc.events.insert(k, v);
+    }
+    for r in &run.results {
+        acc.cases += 1;
+        acc.steps += 1;
+        acc.nt.insert(r.probe.id.clone());
+        acc.nt_cases += 1;
+        if acc.samples.len() < 4 && (acc.samples.len() % 2 == 0) == r.probe.expect_reject {
+            acc.samples.push(format!("{} [{}]: {}", r.probe.id, if r.probe.expect_reject { "must be rejected" } else { "must be accepted" }, r.probe.source.replace('\n', " ")));
+        }
+        if !r.ok {
+            let sig = format!("probe:{}", r.probe.id);
+            if is_known(a.known, a.prop, &sig).is_some() {
+                *acc.known.entry(sig).or_insert(0) += 1;
+            }
+            else if acc.violations.len() < 8 {
+                acc.violations.push(Violation {
+                    replay_text: probe_replay_text(a.prop, r, a.seed, nestings),
+                    msg: format!("{}: {}", r.probe.id, r.why), sig });
+            }
+        }
+    }
+    acc.exhaustive = true;
+    acc
+}
+
+// ------------------------------------------------------- C19 (schedules)
+
+use crate::shared::{self, SOp, SharedCase};
+
+fn sop_strategy(universe: u16) -> proptest::strategy::BoxedStrategy<SOp> {
+    use proptest::prelude::*;
+    let form = prop_oneof![Just(Form::Owned), Just(Form::Borrowed)];
+    prop_oneof![
+        4 => (gen::key_sel(universe), form.clone()).prop_map(|(k, f)| SOp::Peek(k, f)),
+        3 => (gen::key_sel(universe), form.clone()).prop_map(|(k, f)| SOp::PeekEntry(k, f)),
+        3 => (gen::key_sel(universe), form).prop_map(|(k, f)| SOp::Contains(k, f)),
+        3 => Just(SOp::PeekLru),
+        3 => Just(SOp::PeekMru),
+        1 => Just(SOp::Scalars),
+        4 => (0u8..3, proptest::collection::vec(any::<bool>(), 0..6), any::<bool>()).prop_map(|(k, c, f)| SOp::Walk(k, c, f)),
+        1 => Just(SOp::Debug),
+        2 => Just(SOp::Clone),
+    ].boxed()
+}
+
+pub fn shared_case_strategy() -> proptest::strategy::BoxedStrategy<SharedCase> {
+    use proptest::prelude::*;
+    let mut p = Profile::base("shared-prefix");
+    p.side = 0;
+    p.clone = 1;
+    p.walk = 1;
+    p.insert = 40;
+    p.clear = 0;
+    p.max_ops = 30;
+    gen::case(&p).prop_flat_map(|prefix| {
+        let u = prefix.config.universe;
+        (Just(prefix), proptest::collection::vec(proptest::collection::vec(sop_strategy(u), 1..10), 2..=4))
+    }).prop_map(|(prefix, threads)| SharedCase { prefix, threads }).boxed()
+}
+
+pub fn worker_shared(a: &WorkerArgs) -> Accum {
+    let strategy = shared_case_strategy();
+    let acc = RefCell::new(Accum::default());
+    let failed = RefCell::new(false);
+    let mut runner = TestRunner::new(pt_config(a.cases, derive_seed(a.seed, a.index, 19)));
+    let result = runner.run(&strategy, |case| {
+        write_current(a.out, &case.to_text());
+        let out = shared::run_shared(&case);
+        if !out.failures.is_empty() {
+            *failed.borrow_mut() = true;
+            return Err(TestCaseError::fail(out.failures.join("; ")));
+        }
+        if !*failed.borrow() {
+            let mut acc = acc.borrow_mut();
+            acc.cases += 1;
+            acc.steps += out.ops as u64;
+            if out.prefix_failed {
+                *acc.foreign.entry("prefix-failed".into()).or_insert(0) += 1;
+            }
+            if !out.nontrivial.is_empty() { acc.nt_cases += 1; }
+            let new = out.nontrivial.iter().any(|s| !acc.nt.contains(s));
+            for s in out.nontrivial { acc.nt.insert(format!("threads|{}", s)); }
+            if acc.samples.is_empty() || (new && acc.samples.len() < 4) {
+                acc.samples.push(case.to_text().replace('\n', " ; "));
+            }
+        }
+        Ok(())
+    });
+    let mut acc = acc.into_inner();
+    match result {
+        Ok(()) => { },
+        Err(TestError::Fail(reason, case)) => {
+            acc.violations.push(Violation {
+                replay_text: format!("# replay for property {}\n# {}\n{}", a.prop, reason, case.to_text()),
+                msg: format!("{}", reason), sig: "shared-readers".into() });
+        },
+        Err(TestError::Abort(r)) => acc.notes.push(format!("proptest aborted: {}", r)),
+    }
+    acc
+}
